@@ -182,7 +182,9 @@ func (p *Proc) define(st *State, hint string, t *Term) *Term {
 
 // heapGet returns the current term of a heap array, declaring the entry symbol on demand.
 func (p *Proc) heapGet(st *State, key string, sort Sort) *Term {
-	p.heapReads++
+	if key != "AL:" {
+		p.heapReads++
+	}
 	if t, ok := st.heap[key]; ok {
 		return t
 	}
